@@ -93,8 +93,10 @@ CHECKS = {
          'weight scalings, uniform weights, other centres, exact lattice similarities (both sets / xy alone) to '
          'iter_linear_fit with clipping and checks the induced conjugation, and compares the transformed runs '
          'with the exact model in Coq.',
-         'PARTIAL: uniqueness of the minimiser (needed to turn objective equivariance into parameter equality for '
-         'the general and similarity families) is not proved; covered numerically. Rounding outside the theorems.',
+         'Parameter-level equalities are proved for permutations (shift, general, similarity families, via '
+         'uniqueness of the optimum); for weight scaling, centres and similarity transforms the PARTIAL part is that '
+         'only the objective-level statements are proved (parameter equality needs the same uniqueness argument for '
+         'those transforms); covered numerically. Rounding outside the theorems.',
          'DESIGN.md section 6 (C08/C09)'),
  'C09': ('Coq proof (objectives ignore zero-weight pairs whatever their coordinates; masked sources cannot change '
          'iter_linear_fit (Leibniz equality); harmonic weight law; weights follow sources through concatenation) + '
